@@ -36,6 +36,8 @@ type tmpl struct {
 	core1        bool   // ... also in the quick tier, and a member of the ordered-pair chains
 	light        bool   // reduced format/layout grid
 	tmpfile      bool   // uses {tmp} output prefix; files are removed afterwards
+	flatsep      string // shape grid: the separator this template key-spreads collections with (default ".")
+	wfill        bool   // generated function form whose other arguments are $w: reduced scalar grid, full shape grid
 }
 
 func (t *tmpl) A(n ...string) *tmpl  { t.assigns = append(t.assigns, n...); return t }
@@ -57,6 +59,7 @@ func (t *tmpl) Left(k string) *tmpl          { t.left = k; return t }
 func (t *tmpl) Light() *tmpl                 { t.light = true; return t }
 func (t *tmpl) Group(g string) *tmpl         { t.group = g; return t }
 func (t *tmpl) OK(f func(string) bool) *tmpl { t.valueOK = f; return t }
+func (t *tmpl) Sep(s string) *tmpl           { t.flatsep = s; return t }
 
 func v(args ...string) *tmpl {
 	return &tmpl{name: strings.Join(args, " "), verb: args[0], group: "verb", args: args}
@@ -185,7 +188,7 @@ func verbTemplates() []*tmpl {
 		v("case", "-t", "-v", "-f", "{z}").A("z"),
 		v("flatten"),
 		v("flatten", "-f", "{y}"),
-		v("flatten", "-s", ":"),
+		v("flatten", "-s", ":").Sep(":"),
 		v("unflatten"),
 		v("unflatten", "-f", "{y}"),
 		v("unflatten", "-s", ":"),
@@ -498,6 +501,143 @@ func dslTemplates() []*tmpl {
 	return T
 }
 
+// Hand-written readers of a COLLECTION-valued x (shape grid). None assigns x. On a scalar x most of them evaluate
+// to an error value or abort (nothing asserted there).
+func collTemplates() []*tmpl {
+	exprs := []string{
+		// statistics that sort internally
+		`$o = median($x)`, `$o = median($x, {"interpolate_linearly": true})`, `$o = percentile($x, 25)`, `$o = percentile($x, 25, {"output_array_not_map": true})`,
+		`$o = percentile($x, 75, {"array_is_sorted": true})`, `$o = percentiles($x, [25, 75])`, `$o = percentiles($x, [25, 75], {"interpolate_linearly": true, "output_array_not_map": true})`,
+		`$o = percentiles($x, ["p10", "median", "p90"])`, `$o = sort_collection($x)`, `$o = sort_collection($x)[1]`, `$o = median($*)`, `$o = sort_collection($*)[1]`, `$o = percentiles($w, $x)`,
+		`$o = mode($x) . antimode($x) . count($x) . distinct_count($x) . null_count($x)`, `$o = sum($x) . mean($x) . variance($x) . minlen($x) . maxlen($x)`, `$o = kurtosis($x) . skewness($x) . meaneb($x) . stddev($x) . sum2($x) . sum3($x) . sum4($x)`,
+		// sorting functions: documented to return a sorted COPY
+		`$o = sort($x)`, `$o = sort($x, "nr")`, `$o = sort($x, "f")`, `$o = sort($x, "c")`, `$o = sort($x, "cr")`, `$o = sort($x, "t")`, `$o = sort($x, "tr")`, `$o = sort($x, func(a,b) { return b <=> a })`,
+		`$o = sort($x, func(ak,av,bk,bv) { return bv <=> av })`, `$o = sort($*)["{x}"]`, `$o = sort($*, "r")["{x}"]`, `$o = sort(get_values($x))`, `$o = sort(get_keys($x), "r")`,
+		// higher-order functions
+		`$o = apply($x, func(e) { return e . "s" })`, `$o = apply($x, func(k,v) { return {toupper(k): v . "s"} })`, `$o = select($x, func(e) { return true })`, `$o = select($x, func(k,v) { return k != "a" })`,
+		`$o = reduce($x, func(acc,e) { return acc . e })`, `$o = reduce($x, func(acck,accv,ek,ev) { return {"r": accv . ev} })`, `$o = fold($x, func(acc,e) { return acc . e }, "")`, `$o = fold($x, func(acck,accv,ek,ev) { return {"r": accv . ev} }, {"r": ""})`,
+		`$o = any($x, func(e) { return e == 5 })`, `$o = every($x, func(e) { return is_present(e) })`, `$o = any($x, func(k,v) { return v == 5 })`, `$o = every($x, func(k,v) { return true })`,
+		// indexing and slicing
+		`$o = $x[1]`, `$o = $x[-1]`, `$o = $x[1:2]`, `$o = $x["b"]`, `$o = $x[1][1]`, `$o = $x["b"]["a"]`, `$o = $x[1]["b"]`, `$o = $*["{x}"][1]`, `$o = $x[1] . $x[2]`, `$o = $x[1] + 1`, `$o = $x["b"] + 1`, `$o = $x[1] < $x[2]`, `$o = fmtnum($x[1], "%.3f")`, `$o = typeof($x[1]) . asserting_not_null($x)`,
+		// copies that are then modified: an assignment to ANOTHER variable or field is not an assignment to x
+		`$o = $x; $o[1] = "new"`, `$o = $x; $o["b"] = "new"`, `$o = $x; unset $o[1]`, `$o = $x; unset $o["b"]`, `$o = $x; $o[1][1] = "new"`, `var a = $x; a[1] = "new"; $o = a`, `var a = $x; a["b"] = "new"; $o = a`, `var a = $x; unset a[1]; $o = a`,
+		`@a = $x; @a[1] = "new"; $o = @a`, `@a = $x; @a["b"] = "new"; $o = @a`, `@a[NR] = $x; @a[NR][1] = "new"; $o = 1`, `map m = $*; m["{x}"][1] = "new"; $o = m["{x}"]`, `map m = $*; m["{x}"]["b"] = "new"; $o = m["{x}"]`, `@r = $*; @r["{x}"][1] = "new"; @r["{x}"]["b"] = "new"; $o = 1`,
+		`$o = $*; $o["{x}"][1] = "new"; $o = 1`, `$y = $x; $y[1] = "new"`, `$o = [$x, $w]; $o[1][1] = "new"`, `$o = {"k": $x}; $o["k"][1] = "new"; $o["k"]["b"] = "new"`,
+		// by-value argument passing (reference-dsl-variables.md)
+		`func f(a) { a[1] = "new"; return a } $o = f($x)`, `func f(a) { a["b"] = "new"; return a } $o = f($x)`, `func f(map a): map { a["b"] = "new"; return a } $o = f($x)`, `func f(arr a): arr { a[1] = "new"; return a } $o = f($x)`,
+		`func f(a) { unset a[1]; return 1 } $o = f($x)`, `subr s(a) { a[1] = "new"; a["b"] = "new"; print > "/dev/null", a } call s($x)`, `func f(a) { a["{x}"][1] = "new"; return 1 } $o = f($*)`, `func f(a) { return sort_collection(a) } $o = f($x)`,
+		// loops: the bound variables are bound to a copy (reference-dsl-control-structures.md)
+		`for (e in $x) { e = "new"; $o = e }`, `for (k, v in $x) { v = "new"; $o = k }`, `for (k, v in $*) { if (is_array(v)) { v[1] = "new" } elif (is_map(v)) { v["b"] = "new" } } $o = 1`, `for ((k1, k2), v in $x) { $o = k1 . k2 . v }`, `for ((k1, k2), v in $*) { v = "new"; $o = k2 }`,
+		`for (e in $x) { if (is_array(e)) { e[1] = "new" } elif (is_map(e)) { e["b"] = "new" } } $o = 1`, `o = ""; for (e in $x) { o = o . typeof(e) } $o = o`, `for (i = 1; i <= length($x); i += 1) { $o = $x[i] }`, `i = 1; while (i <= length($x)) { $o = typeof($x[i]); i += 1 }`,
+		// collection functions
+		`$o = append($x, "new")`, `$o = append($x, $w)`, `$o = concat($x, ["new"])`, `$o = concat(["new"], $x)`, `$o = concat($x)`, `$o = concat($x, $w, $x)`, `$o = arrayify($x)`, `$o = arrayify({"1": $x[1], "2": $x})`, `$o = json_parse(json_stringify($x))`, `$o = json_stringify($x)`, `$o = json_stringify($x, "multiline")`, `$o = hasvalue($x, 5) . hasvalue($x, "0xff")`,
+		`$o = flatten($x, ":")`, `$o = flatten("p", ":", $x)`, `$o = flatten($*, ":")`, `$o = unflatten($x, ":")`, `$o = unflatten(flatten($*, "."), ".")["{x}"]`, `$o = get_keys($x)`, `$o = get_values($x)`, `$o = get_values($x); $o[1] = "new"`, `$o = haskey($x, 1) . haskey($x, -1) . haskey($x, "b")`,
+		`$o = length($x) . depth($x) . leafcount($x)`, `$o = mapdiff($x, {"a": 0})`, `$o = mapdiff($x, $w)`, `$o = mapsum($x, {"new": 1})`, `$o = mapsum($x, $w)`, `$o = mapsum({"new": 1}, $x)`, `$o = mapexcept($x, "a")`, `$o = mapexcept($x, ["a", "b"])`, `$o = mapselect($x, "a")`, `$o = mapselect($x, ["a", "c"])`,
+		`$o = joink($x, ";") . joinv($x, ";") . joinkv($x, "=", ";")`, `$o = splitax(joinv($x, ";"), ";")`, `$o = string($x)`, `$o = $x . ""`, `$o = strlen($x)`, `$o = toupper($x)`, `$o = format("{}:{}", $x, $w)`, `$o = latin1_to_utf8($x)`, `$o = utf8_to_latin1($x)`,
+		`$o = is_array($x) . is_map($x) . is_not_map($x) . is_not_array($x) . is_empty_map($x) . is_nonempty_map($x) . is_not_empty($x) . is_string($x) . is_error($x) . is_absent($x)`, `$o = typeof($x) . typeof($w)`, `$o = asserting_array($x)`, `$o = asserting_map($x)`, `$o = asserting_not_empty($x)`,
+		`$o = $x == $w`, `$o = $x != $w`, `$o = $x < $w`, `$o = $x <=> $w`, `$o = min($x, $w)`, `$o = max($x, 1)`, `$o = $x ?? "d"`, `$o = $x ??? "d"`, `$o = is_present($x) ? $x : "d"`, `$o = $x + 1`, `$o = -$x`, `$o = $x . $w`, `$o = $x =~ "5"`, `$o = index($x, "5")`, `$o = contains($x, "5")`, `$o = unformat("{}", $x)`,
+		`$o = percentile(apply($x, func(e) { return e }), 50)`, `$o = median(get_values($x))`, `$o = sort_collection(mapsum($x))`,
+		// output statements
+		`print > "/dev/null", $x`, `dump > "/dev/null", $x`, `emit > "/dev/null", {"k": $x}`, `tee > "/dev/null", $*`, `eprintn ""; $o = typeof($x)`, `emit1 {"k": $x}`, `@s[NR] = $x; end { emit > "/dev/null", @s }`, `@s = $x; $o = typeof(@s); unset @s`,
+	}
+	var T []*tmpl
+	for _, e := range exprs {
+		t := put(e).Group("dsl-coll").Light()
+		if strings.HasPrefix(e, "$y =") {
+			t.A("y")
+		}
+		T = append(T, t)
+	}
+	T = append(T,
+		filter(`sort_collection($x)[1] < 1 || true`).Group("dsl-coll"),
+		filter(`is_present(median($x)) || true`).Group("dsl-coll"),
+		filter(`length(sort($x)) >= 0`).Group("dsl-coll"),
+		filter(`any(get_values($x), func(e) { return true }) || true`).Group("dsl-coll"),
+		putq(`emit mapsum({"{id}": $id}, {"k": sort_collection($x)}, {"{x}": $x})`).Group("dsl-coll").M("*"),
+		putq(`@r[NR] = $*; end { for (k, r in @r) { r["o"] = median(r["{x}"]); emit r } }`).Group("dsl-coll"),
+		putq(`@x[NR] = $x; @id[NR] = $id; end { for (k, v in @x) { emit mapsum({"{id}": @id[k], "m": sort_collection(v), "{x}": v}) } }`).Group("dsl-coll").M("*"),
+	)
+	return T
+}
+
+// reuseTemplates: the NAME RE-USE family. A structural edit S (rename / remove / move of a field) followed by an
+// operation U addressed to the name the edit retired. After S that name denotes no field (or a different, assigned
+// one), so U must leave every original field alone -- in particular the renamed, never-assigned x. A record that
+// carries a key index (>= 12 fields, JSON-read, --hash-records) and keeps a stale entry for the retired name
+// redirects U to the wrong field. Full product S x U; {n} is the retired name.
+func reuseTemplates() []*tmpl {
+	type sop struct {
+		args []string
+		n    string // logical name retired by S
+		mk   func(t *tmpl)
+	}
+	S := []sop{
+		{[]string{"rename", "{x},xx"}, "x", func(t *tmpl) { t.R("x", "xx") }},
+		{[]string{"rename", "-r", "^{x}$,xx"}, "x", func(t *tmpl) { t.R("x", "xx") }},
+		{[]string{"rename", "-g", "-r", "^{x}$,xx"}, "x", func(t *tmpl) { t.R("x", "xx") }},
+		{[]string{"put", `$[[{xpos}]] = "xx"`}, "x", func(t *tmpl) { t.R("x", "xx") }},
+		{[]string{"rename", "{x},xx", "then", "rename", "xx,{x}"}, "xx", func(t *tmpl) {}},
+		{[]string{"rename", "{y},yy"}, "y", func(t *tmpl) { t.R("y", "yy") }},
+		{[]string{"cut", "-x", "-f", "{y}"}, "y", func(t *tmpl) { t.A("y") }},
+		{[]string{"put", `unset $y`}, "y", func(t *tmpl) { t.A("y") }},
+		{[]string{"reorder", "-f", "{x}"}, "y", func(t *tmpl) { t.A("y").M("x") }},
+		{[]string{"reorder", "-e", "-f", "{x}"}, "y", func(t *tmpl) { t.A("y").M("x") }},
+		{[]string{"sort-within-records"}, "y", func(t *tmpl) { t.A("y").M("*") }},
+	}
+	type uop struct {
+		args []string
+		het  bool
+	}
+	U := []uop{
+		{[]string{"put", `${n} = "new"`}, false},
+		{[]string{"put", `$*["{n}"] = "new"`}, false},
+		{[]string{"put", `unset ${n}`}, false},
+		{[]string{"put", `$o = is_present(${n}) . typeof(${n}) . ${n}`}, false},
+		// (a leading scalar key: emit treats a map whose FIRST value is a map as a map of records)
+		{[]string{"put", "-q", `emit mapsum({"_": 0}, mapexcept($*, "{n}"))`}, false},
+		{[]string{"put", `${n} = NR; unset ${n}`}, false},
+		{[]string{"sec2gmt", "{n}"}, false},
+		{[]string{"sec2gmtdate", "{n}"}, false},
+		{[]string{"cut", "-x", "-f", "{n}"}, false},
+		{[]string{"cut", "-x", "-r", "-f", "^{n}$"}, false},
+		{[]string{"rename", "{n},qq"}, false},
+		{[]string{"rename", "-r", "^{n}$,qq"}, false},
+		{[]string{"reorder", "-e", "-f", "{n}"}, false},
+		{[]string{"reorder", "-f", "{n}"}, false},
+		{[]string{"fill-down", "-a", "-f", "{n}"}, false},
+		{[]string{"fill-down", "-f", "{n}"}, false},
+		{[]string{"unsparsify", "-f", "{n}"}, false},
+		{[]string{"nest", "--evar", ";", "-f", "{n}"}, false},
+		{[]string{"sub", "-f", "{n}", "e", "E"}, false},
+		{[]string{"case", "-u", "-f", "{n}"}, false},
+		{[]string{"json-parse", "-f", "{n}"}, false},
+		{[]string{"json-stringify", "-f", "{n}"}, false},
+		{[]string{"merge-fields", "-k", "-a", "count", "-f", "{n}", "-o", "o"}, false},
+		{[]string{"step", "-a", "shift", "-f", "{n}"}, false},
+		{[]string{"sparsify", "-f", "{n}"}, false},
+	}
+	var T []*tmpl
+	for _, s := range S {
+		for _, u := range U {
+			args := append([]string{}, s.args...)
+			args = append(args, "then")
+			for _, a := range u.args {
+				ph := "{" + s.n + "}" // placeholder of a logical name; "xx" is a literal name
+				if s.n == "xx" {
+					ph = "xx"
+				}
+				a = strings.ReplaceAll(a, "${n}", "${"+ph+"}")
+				a = strings.ReplaceAll(a, "{n}", ph)
+				args = append(args, a)
+			}
+			t := &tmpl{name: strings.Join(args, " "), verb: "chain", group: "reuse", args: args, hetero: u.het}
+			s.mk(t)
+			T = append(T, t)
+		}
+	}
+	return T
+}
+
 var letterRe = regexp.MustCompile(`^[a-z_][a-z_0-9]*$`)
 
 // functions never generated: they run external commands or read files named by the data.
@@ -527,7 +667,7 @@ func dslFunctionTemplates() ([]*tmpl, []string) {
 			return
 		}
 		seen[e] = true
-		T = append(T, &tmpl{name: "put " + e, verb: "put", group: "dslfn:" + fn, args: []string{"put", e}, light: true})
+		T = append(T, &tmpl{name: "put " + e, verb: "put", group: "dslfn:" + fn, args: []string{"put", e}, light: true, wfill: strings.Contains(e, "$w")})
 	}
 	tab := cst.VerifC03BuiltinTable()
 	sort.SliceStable(tab, func(i, j int) bool { return tab[i].Name < tab[j].Name })
@@ -568,11 +708,17 @@ func dslFunctionTemplates() ([]*tmpl, []string) {
 			call("$x", "$y")
 			call("$y", "$x")
 			call("$x", "$x")
+			// second filler: the neighbour field w (another spelling; in the shape grid another collection)
+			call("$x", "$w")
+			call("$w", "$x")
 		}
 		if b.Ternary {
 			call("$x", "$y", "$y")
 			call("$y", "$x", "$y")
 			call("$y", "$y", "$x")
+			call("$x", "$w", "$y")
+			call("$w", "$x", "$y")
+			call("$y", "$w", "$x")
 			if b.Name == "?:" {
 				call("true", "$x", "$y")
 				call("false", "$y", "$x")
@@ -584,12 +730,17 @@ func dslFunctionTemplates() ([]*tmpl, []string) {
 					continue
 				}
 				for pos := 0; pos < k; pos++ {
-					a := make([]string, k)
-					for i := range a {
-						a[i] = "$y"
+					for _, filler := range []string{"$y", "$w"} {
+						if k == 1 && filler == "$w" {
+							continue
+						}
+						a := make([]string, k)
+						for i := range a {
+							a[i] = filler
+						}
+						a[pos] = "$x"
+						call(a...)
 					}
-					a[pos] = "$x"
-					call(a...)
 				}
 			}
 		}
@@ -597,7 +748,13 @@ func dslFunctionTemplates() ([]*tmpl, []string) {
 			skipped = append(skipped, b.Name+": takes no argument")
 		}
 	}
-	return T, skipped
+	var uniq []string
+	for i, m := range skipped {
+		if i == 0 || skipped[i-1] != m {
+			uniq = append(uniq, m)
+		}
+	}
+	return T, uniq
 }
 
 // chainTemplates: ordered pairs of core readers joined with "then" (the first
@@ -656,6 +813,18 @@ type catalogue struct {
 func buildCatalogue() *catalogue {
 	c := &catalogue{excluded: excludedVerbs, verbOptions: map[string][]string{}}
 	base := append(verbTemplates(), dslTemplates()...)
+	{
+		have := map[string]bool{}
+		for _, t := range base {
+			have[t.name] = true
+		}
+		for _, t := range append(collTemplates(), reuseTemplates()...) {
+			if !have[t.name] { // a few collection readers are already among the scalar forms
+				have[t.name] = true
+				base = append(base, t)
+			}
+		}
+	}
 	core1 := map[string]bool{"cat": true, "sort -nf {x}": true, "top -a -n 2000 -f {x}": true, "step -a delta -f {x}": true,
 		"merge-fields -k -a sum,count -f {x},{y} -o o": true, "sec2gmt {y}": true, "put $o = $x + 1": true, `put $o = $x . ""`: true, "put $o = typeof($x)": true,
 		"filter $x == $x || true": true}
